@@ -1,17 +1,22 @@
 #!/bin/bash
-# dev helper: robust.sh <function key> : every obligation of the function is solved stand-alone under several
-# random seeds; obligations that are not decided by a majority of seeds within 5 s are listed (fragile proofs).
+# dev helper: robust.sh <function key>... : every obligation of each function is solved stand-alone under four
+# random seeds (full theory and without array extensionality); obligations not decided by at least 3 of 4 seeds
+# within 5 s are listed as FRAGILE.
 cd /verif; export GOVC_LIB=/verif/lib
-d=$(mktemp -d /tmp/robust.XXXX)
-GOVC_KEEP=1 GOVC_NOINC=1 ./bin/govc func -repo ${REPO:-/repo} -timeout 1 -dump $d "$1" > $d/log.txt 2>&1
-ls $d/*.smt2 2>/dev/null | grep -v slice | while read f; do
-  name=$(head -1 $f | sed 's/^; obligation //')
-  case "$name" in *cover\[*) continue;; esac
+one() {
+  f=$1; name=$(head -1 $f | sed 's/^; obligation //')
+  case "$name" in *cover\[*) return;; esac
   ok=0; res=""
   for sd in 0 1 2 3; do
     r=$( (z3-new -T:5 smt.random_seed=$sd $f; z3-new -T:5 smt.random_seed=$sd smt.array.extensional=false $f) 2>/dev/null | grep -c '^unsat')
     [ "$r" -ge 1 ] && ok=$((ok+1)); res="$res$r"
   done
   [ $ok -lt 3 ] && echo "FRAGILE ($ok/4 seeds: $res) $name"
+}
+export -f one
+for key in "$@"; do
+  d=$(mktemp -d /tmp/robust.XXXX)
+  GOVC_KEEP=1 GOVC_NOINC=1 ./bin/govc func -repo ${REPO:-/repo} -timeout 1 -dump $d "$key" > $d/log.txt 2>&1
+  ls $d/*.smt2 2>/dev/null | grep -v slice | xargs -P ${PAR:-8} -I{} bash -c 'one {}'
+  rm -rf $d
 done
-rm -rf $d
